@@ -40,6 +40,9 @@ type XferCfg struct {
 	// watchdog fired). Used where the close racing ahead of the last records
 	// is a recorded finding of its own and must not mask what is being looked at.
 	KeepSenderOpen bool `json:"keep_sender_open,omitempty"`
+	// ResumeTimeoutMs > 0: the sender's Options.ResumeTimeout (the CLI leaves it
+	// 0, internal/config defaults it to 10 s)
+	ResumeTimeoutMs int `json:"resume_timeout_ms,omitempty"`
 
 	WatchdogMs int `json:"watchdog_ms,omitempty"` // default 20000
 
@@ -289,6 +292,7 @@ func RunTransfer(ctx context.Context, cfg XferCfg, lp *ListenerPool, srcRoot, ou
 		Resume:          cfg.Resume,
 		HashAlg:         hash,
 		ResolveFilePath: resolver,
+		ResumeTimeout:   time.Duration(cfg.ResumeTimeoutMs) * time.Millisecond,
 	}
 	streams, cs := cfg.Streams, cfg.ChunkSize
 	sopts.ParamSource = func() transfer.RuntimeParams {
